@@ -269,8 +269,9 @@ def negative_reads(tid, chrom, strand, exons, delta=0):
         out.append(("retention", [(exons[0][0], exons[1][1])] + list(exons[2:])))                # intron retained
         out.append(("far-site", [(exons[0][0], exons[0][1] - 90)] + list(exons[1:])))            # donor moved 90 bp
         # the first intron moved as a whole (same length, both sites 120 bp away: twice the largest intron-shift tolerance), either way
-        out.append(("intron-moved-down", [(exons[0][0], exons[0][1] + 120), (exons[1][0] + 120, exons[1][1])] + list(exons[2:])))
-        out.append(("intron-moved-up", [(exons[0][0], exons[0][1] - 120), (exons[1][0] - 120, exons[1][1])] + list(exons[2:])))
+        if exons[0][1] - exons[0][0] >= 170 and exons[1][1] - exons[1][0] >= 170 and g1 - g0 >= 170:
+            out.append(("intron-moved-down", [(exons[0][0], exons[0][1] + 120), (exons[1][0] + 120, exons[1][1])] + list(exons[2:])))
+            out.append(("intron-moved-up", [(exons[0][0], exons[0][1] - 120), (exons[1][0] - 120, exons[1][1])] + list(exons[2:])))
         out.append(("extended", [(exons[0][0] - 450, exons[0][1])] + list(exons[1:])))           # left end extended by 450 bp
         out.append(("extended-right", list(exons[:-1]) + [(exons[-1][0], exons[-1][1] + 450)]))   # right end extended by 450 bp
     if n >= 3:
